@@ -1110,3 +1110,485 @@ Proof.
   - cbn [app]. rewrite Hs. reflexivity.
   - pose proof (fuel_of_view _ Hok5) as L. rewrite Hv5 in L. exact L.
 Qed.
+
+(* --sort-by expression[=direction] *)
+Definition upper_letter (u : N) : Prop := 65 <= u <= 90.
+
+Lemma ci_byte_facts b u : upper_letter u -> (b = u \/ b = u + 32) ->
+  b < 128 /\ upper b = u /\ is_uni_ws b = false.
+Proof.
+  intros [Hl Hh] Hb. assert (R : 65 <= b <= 122) by lia. split; [lia|]. split.
+  - unfold upper. destruct Hb as [-> | ->].
+    + rewrite (leb_false 97 u) by lia. cbn [andb]. rewrite (eqb_false u 383) by lia. reflexivity.
+    + rewrite (leb_true 97 (u + 32)), (leb_true (u + 32) 122) by lia. cbn [andb]. lia.
+  - unfold is_uni_ws, mem_N. cbn [existsb]. rewrite (leb_false b 13) by lia. rewrite andb_false_r.
+    rewrite (leb_false 8192 b) by lia. rewrite !(eqb_false b) by lia. reflexivity.
+Qed.
+
+Lemma ci_word_facts word W : ci_word word W -> Forall upper_letter W ->
+  Forall (fun b => b < 128) word /\ map upper word = W /\ Forall (fun c => is_uni_ws c = false) word.
+Proof.
+  induction 1 as [|b u word W Hb _ IH]; intros HW.
+  - repeat split; constructor.
+  - inversion HW as [|? ? Hu HW']; subst. destruct (ci_byte_facts b u Hu Hb) as (? & ? & ?).
+    destruct (IH HW') as (? & ? & ?).
+    repeat split; [constructor; auto|cbn [map]; congruence|constructor; auto].
+Qed.
+
+Lemma nonws_trimmed (l : str) : Forall (fun c => is_uni_ws c = false) l -> trimmed l.
+Proof.
+  intros H. split.
+  - destruct H; cbn [no_ws_head]; auto.
+  - apply Forall_rev in H. destruct H; cbn [no_ws_head]; auto.
+Qed.
+
+Lemma ws_facts b : is_ws b = true -> b < 128 /\ is_uni_ws b = true.
+Proof.
+  intros H. apply ws_cases in H. destruct H as [-> | [-> | [-> | ->]]]; split; reflexivity.
+Qed.
+
+Lemma ws_ok_facts (w : list byte) : ws_ok w -> Forall (fun b => b < 128) w /\ uni_ws w.
+Proof.
+  induction 1 as [|b w Hb _ [IH1 IH2]]; [split; constructor|].
+  destruct (ws_facts b Hb). split; constructor; auto.
+Qed.
+
+Lemma dir_word_facts word dir : dir_word word dir ->
+  Forall (fun b => b < 128) word /\ Forall (fun c => is_uni_ws c = false) word /\
+  map upper word = match dir with Asc => map upper word | Desc => [68; 69; 83; 67] end /\
+  (dir = Asc -> map upper word = [] \/ map upper word = [65; 83; 67]).
+Proof.
+  assert (U1 : Forall upper_letter [65; 83; 67]) by (repeat constructor; unfold upper_letter; lia).
+  assert (U2 : Forall upper_letter [68; 69; 83; 67]) by (repeat constructor; unfold upper_letter; lia).
+  destruct dir; cbn [dir_word].
+  - intros [->|H].
+    + split; [constructor|]. split; [constructor|]. split; [reflexivity|]. intros _. left. reflexivity.
+    + destruct (ci_word_facts _ _ H U1) as (? & ? & ?). repeat split; auto.
+  - intros H. destruct (ci_word_facts _ _ H U2) as (? & ? & ?). repeat split; auto. discriminate.
+Qed.
+
+Theorem parse_sorter_show x e (w tl : list byte) dir :
+  xwf x -> expr_of x = Some e -> ws_ok w -> dir_suffix tl dir ->
+  parse_sorter (w ++ show x ++ tl) = Some (e, dir).
+Proof.
+  intros Hwf He Hw Hd. unfold parse_sorter.
+  destruct Hd as [|pl word pr dir Hpl Hpr Hword].
+  - destruct (read_option_value x e w [] Hwf He Hw (xfollow_nil x)) as (r1 & -> & Hv1 & Hok1 & Hc1).
+    cbn [hd_error] in Hc1.
+    pose proof (read_until_eof (fun _ => false) (S (length (rest r1))) [] r1 Hok1 Hv1 Hc1) as E.
+    change (fuel_of r1) with (S (S (length (rest r1)))).
+    destruct (read_until (S (S (length (rest r1)))) (fun _ => false) [] r1) as [db rr].
+    cbn [fst] in E. subst db. reflexivity.
+  - destruct (read_option_value x e w (61 :: pl ++ word ++ pr) Hwf He Hw
+                (xfollow_closes x 61 _ eq_refl)) as (r1 & -> & Hv1 & Hok1 & Hc1).
+    cbn [hd_error] in Hc1.
+    destruct (read_until_spec (fun _ => false) (pl ++ word ++ pr) (fuel_of r1) [] r1 61 [] Hok1 Hc1)
+      as (r2 & E & _).
+    { rewrite app_nil_r. exact Hv1. }
+    { apply Forall_forall. reflexivity. }
+    { exact I. }
+    { pose proof (fuel_of_view r1 Hok1) as L. rewrite Hv1 in L. cbn [length] in L. lia. }
+    rewrite E. cbn [app].
+    destruct (ws_ok_facts pl Hpl) as [Apl Upl]. destruct (ws_ok_facts pr Hpr) as [Apr Upr].
+    destruct (dir_word_facts word dir Hword) as (Aw & Nw & Ed & Ea).
+    rewrite utf8_decode_ascii by (repeat (apply Forall_app; split); assumption).
+    nb. rewrite (trim_pad pl word pr Upl Upr (nonws_trimmed word Nw)).
+    destruct dir.
+    + destruct (Ea eq_refl) as [-> | ->]; reflexivity.
+    + rewrite Ed. reflexivity.
+Qed.
+
+(* --set @name=expression defines a macro (and name=expression a variable: its value) *)
+Lemma split_eq_spec (kb : list byte) : forall acc vb, Forall (fun b => (b =? 61) = false) kb ->
+  split_eq (kb ++ 61 :: vb) acc = Some (acc ++ kb, vb).
+Proof.
+  induction kb as [|b kb IH]; intros acc vb H; cbn [app split_eq].
+  - rewrite N.eqb_refl, app_nil_r. reflexivity.
+  - inversion H as [|? ? Hb H']; subst. rewrite Hb. rewrite IH by assumption.
+    rewrite <- app_assoc. reflexivity.
+Qed.
+
+Theorem parse_preset_show x e (kb w w' : list byte) (k : str) :
+  xwf x -> expr_of x = Some e -> ws_ok w -> ws_ok w' ->
+  Forall (fun b => (b =? 61) = false) kb -> utf8_decode kb = Some k ->
+  parse_preset (kb ++ 61 :: w ++ show x ++ w') =
+    match trim k with
+    | k0 :: m =>
+        if k0 =? 64 then match m with [] => None | _ => Some (PMacro m e) end
+        else match get e new_empty with Some v => Some (PVar (trim k) v) | None => None end
+    | [] => None
+    end.
+Proof.
+  intros Hwf He Hw Hw' Hkb Hk. unfold parse_preset.
+  rewrite (split_eq_spec kb [] _ Hkb). cbn [app]. rewrite Hk.
+  set (vb := w ++ show x ++ w').
+  destruct (read_getter_show (expr_fuel vb) x e w w' (reader_of_bytes vb) Hwf He)
+    as (r1 & -> & Hv1 & Hok1 & _).
+  - rewrite <- (app_nil_r w'). apply xfollow_ws; [assumption|apply xfollow_nil].
+  - assumption.
+  - apply rd_ok_of_bytes.
+  - apply view_of_bytes.
+  - rewrite view_of_bytes. unfold expr_fuel. lia.
+  - destruct (eat_whitespace_spec w' r1 [] Hok1 Hw' I) as (Hv2 & Hok2); [rewrite app_nil_r; exact Hv1|].
+    destruct (peek_nil _ Hok2 Hv2) as (r3 & -> & _). reflexivity.
+Qed.
+
+(* ================= the plain reading of the grammar ================= *)
+(* induction on spelling trees (the arguments of a call are nested in a list) *)
+Lemma sexpr_ind' (P : sexpr -> Prop) :
+  (forall ups p, P (XExtract ups p)) -> (forall t, P (XConst t)) -> (forall n, P (XVar n)) ->
+  (forall n, P (XMacro n)) -> (forall pl n pr, P (XSelected pl n pr)) ->
+  (forall k sp, P (XIctx k sp)) ->
+  (forall name dot args close, Forall (fun sa => P (snd sa)) args -> P (XCall name dot args close)) ->
+  forall x, P x.
+Proof.
+  intros H1 H2 H3 H4 H5 H6 H7. fix IH 1.
+  intros [ups p|t|n|n|pl n pr|k sp|name dot args close].
+  - apply H1. - apply H2. - apply H3. - apply H4. - apply H5. - apply H6.
+  - apply H7. induction args as [|[s a] more IHm]; constructor; [apply IH|exact IHm].
+Qed.
+
+Lemma xwf_plain_call name dot args close :
+  xwf_plain (XCall name dot args close) <-> (pad_ok close /\ xwf_plain_args args).
+Proof.
+  cbn [xwf_plain].
+  match goal with |- (_ /\ ?F args) <-> _ => assert (E : F args <-> xwf_plain_args args) end.
+  { induction args as [|[s a] more IH]; cbn [xwf_plain_args]; tauto. }
+  tauto.
+Qed.
+
+Lemma show_args_plain_head args close : pad_ok close -> xwf_plain_args args ->
+  exists b l, show_args args close = b :: l /\ (is_pad_byte b = true \/ b = 41).
+Proof.
+  destruct args as [|[s a] more]; cbn [show_args xwf_plain_args]; unfold sep_ok.
+  - intros Hc _. destruct Hc as [|b close Hb _]; cbn [app]; eauto.
+  - intros _ ((Hne & Hs) & _). destruct Hs as [|b s Hb _]; [congruence|]. cbn [app]. eauto.
+Qed.
+
+Lemma pad_or_close b : is_pad_byte b = true \/ b = 41 -> closes b = true /\ fname_stop b = true.
+Proof.
+  intros [H| ->]; [|split; reflexivity]. split; [apply pad_closes; assumption|].
+  unfold is_pad_byte in H. apply orb_true_iff in H. destruct H as [H|H].
+  - apply ws_cases in H. destruct H as [-> | [-> | [-> | ->]]]; reflexivity.
+  - apply N.eqb_eq in H. subst b. reflexivity.
+Qed.
+
+(* non-empty separators make every follow condition inside a call true *)
+Theorem xwf_plain_xwf : forall x, xwf_plain x -> xwf x.
+Proof.
+  apply (sexpr_ind' (fun x => xwf_plain x -> xwf x)); try (intros; assumption).
+  intros name dot args close IH H. apply (proj1 (xwf_plain_call name dot args close)) in H.
+  destruct H as [Hc Ha].
+  apply (proj2 (xwf_call name dot args close)). destruct (show_args_plain_head args close Hc Ha) as (b & l & E & Hb).
+  split; [rewrite E; cbn [at_end]; apply pad_or_close; assumption|]. split; [exact Hc|].
+  clear E b l Hb. induction args as [|[s a] more IHm]; cbn [xwf_args]; [exact I|].
+  inversion IH as [|? ? IHa IHmore]; subst. cbn [snd] in IHa. cbn [xwf_plain_args] in Ha. unfold sep_ok in Ha.
+  destruct Ha as ((Hne & Hs) & Hpa & Hpm).
+  split; [exact Hs|]. split; [apply IHa; exact Hpa|]. split; [|apply IHm; assumption].
+  destruct (show_args_plain_head more close Hc Hpm) as (b & l & -> & Hb).
+  apply xfollow_closes. apply pad_or_close. assumption.
+Qed.
+
+(* ================= P4: facts about the generated table ================= *)
+Fixpoint nodupb (l : list (list N)) : bool :=
+  match l with [] => true | x :: t => negb (existsb (list_eqb N.eqb x) t) && nodupb t end.
+
+Lemma nodupb_NoDup l : nodupb l = true -> NoDup l.
+Proof.
+  induction l as [|x t IH]; cbn [nodupb]; intros H; constructor;
+    apply andb_true_iff in H; destruct H as [H1 H2]; [|auto].
+  intros Hin. apply negb_true_iff in H1.
+  assert (E : existsb (list_eqb N.eqb x) t = true).
+  { apply existsb_exists. exists x. split; [assumption|]. apply list_eqb_eq. reflexivity. }
+  congruence.
+Qed.
+
+Theorem fn_names_nodup : NoDup (map e_name fn_table).
+Proof. apply nodupb_NoDup. vm_compute. reflexivity. Qed.
+
+Theorem fn_table_size : length fn_table = 192%nat.
+Proof. reflexivity. Qed.
+
+(* the number of functions: distinct canonical names *)
+Fixpoint dedup (l : list (list N)) : list (list N) :=
+  match l with
+  | [] => []
+  | x :: t => if existsb (list_eqb N.eqb x) t then dedup t else x :: dedup t
+  end.
+
+Theorem fn_count_ok :
+  Gen.FnTable.fn_count = 111 /\
+  N.of_nat (length (dedup (map e_canon fn_table))) = Gen.FnTable.fn_count /\
+  length fn_names = 111%nat.
+Proof. vm_compute. repeat split; reflexivity. Qed.
+
+Lemma find_function_nodup (tbl : list entry) : NoDup (map e_name tbl) -> forall e, In e tbl ->
+  find_function (e_name e) tbl = Some (e_canon e, e_min e, e_max e).
+Proof.
+  induction tbl as [|[[[n0 c0] mn0] mx0] t IH]; intros Hnd e Hin; [contradiction|].
+  cbn [map] in Hnd. inversion Hnd as [|? ? Hnotin Hnd']; subst. cbn [find_function].
+  destruct Hin as [<-|Hin].
+  - unfold e_name. cbn [fst]. rewrite (proj2 (list_eqb_eq n0 n0) eq_refl). reflexivity.
+  - destruct (list_eqb N.eqb (e_name e) n0) eqn:E.
+    + apply list_eqb_eq in E. exfalso. apply Hnotin. unfold e_name at 1. cbn [fst]. rewrite <- E.
+      apply in_map. exact Hin.
+    + apply IH; assumption.
+Qed.
+
+(* every name and every alias resolves to its own entry *)
+Theorem alias_resolves : forall e, In e fn_table ->
+  find_function (e_name e) fn_table = Some (e_canon e, e_min e, e_max e).
+Proof. apply find_function_nodup. exact fn_names_nodup. Qed.
+
+(* every canonical name is a function of the enumeration Model/Fn.v *)
+Theorem canonical_known :
+  forallb (fun e : entry => match fn_of_canonical (e_canon e) with FUnknown _ => false | _ => true end)
+          fn_table = true.
+Proof. vm_compute. reflexivity. Qed.
+
+(* every canonical name is itself a name of the table, resolving to itself *)
+Theorem canonical_fixed :
+  forallb (fun e : entry =>
+             match find_function (e_canon e) fn_table with
+             | Some (c, _, _) => list_eqb N.eqb c (e_canon e)
+             | None => false
+             end) fn_table = true.
+Proof. vm_compute. reflexivity. Qed.
+
+Theorem min_le_max :
+  forallb (fun e : entry => match e_max e with Some m => e_min e <=? m | None => true end) fn_table = true.
+Proof. vm_compute. reflexivity. Qed.
+
+(* all names of one function carry the same arity bounds *)
+Definition opt_eqb (a b : option N) : bool :=
+  match a, b with Some x, Some y => x =? y | None, None => true | _, _ => false end.
+
+Lemma opt_eqb_eq a b : opt_eqb a b = true -> a = b.
+Proof.
+  destruct a, b; cbn [opt_eqb]; try discriminate; [|reflexivity].
+  intros H. apply N.eqb_eq in H. congruence.
+Qed.
+
+Definition same_arity_check (tbl : list entry) : bool :=
+  forallb (fun e1 => forallb (fun e2 =>
+    if list_eqb N.eqb (e_canon e1) (e_canon e2)
+    then (e_min e1 =? e_min e2) && opt_eqb (e_max e1) (e_max e2) else true) tbl) tbl.
+
+Theorem alias_same_arity e1 e2 : In e1 fn_table -> In e2 fn_table -> e_canon e1 = e_canon e2 ->
+  e_min e1 = e_min e2 /\ e_max e1 = e_max e2.
+Proof.
+  intros H1 H2 Hc. assert (C : same_arity_check fn_table = true) by (vm_compute; reflexivity).
+  unfold same_arity_check in C. rewrite forallb_forall in C. specialize (C e1 H1).
+  rewrite forallb_forall in C. specialize (C e2 H2).
+  rewrite (proj2 (list_eqb_eq _ _) Hc) in C. apply andb_true_iff in C. destruct C as [C1 C2].
+  apply N.eqb_eq in C1. apply opt_eqb_eq in C2. auto.
+Qed.
+
+(* ================= P3: aliases, separators and the dot sugar are invisible ================= *)
+(* at the level of the denoted tree *)
+Theorem alias_same_expr n1 n2 dot args close c mn1 mx1 mn2 mx2 :
+  find_function n1 fn_table = Some (c, mn1, mx1) ->
+  find_function n2 fn_table = Some (c, mn2, mx2) ->
+  expr_of (XCall n1 dot args close) = expr_of (XCall n2 dot args close).
+Proof.
+  intros F1 F2. pose proof (find_function_In _ _ _ _ _ F1) as I1.
+  pose proof (find_function_In _ _ _ _ _ F2) as I2.
+  destruct (alias_same_arity _ _ I1 I2 eq_refl) as [Emn Emx].
+  unfold e_min, e_max in Emn, Emx. cbn [fst snd] in Emn, Emx. subst mn2 mx2.
+  rewrite !expr_of_call. unfold call_of. rewrite F1, F2. reflexivity.
+Qed.
+
+Lemma exprs_of_ext args args' :
+  Forall2 (fun a b : pad * sexpr => expr_of (snd a) = expr_of (snd b)) args args' ->
+  exprs_of args = exprs_of args'.
+Proof.
+  induction 1 as [|[s a] [s' a'] l l' H _ IH]; cbn [exprs_of]; [reflexivity|].
+  cbn [snd] in H. rewrite H, IH. reflexivity.
+Qed.
+
+(* blanks, commas, the padding before ')' — and, recursively, the spelling of the arguments *)
+Theorem separators_same_expr name dot args args' close close' :
+  Forall2 (fun a b : pad * sexpr => expr_of (snd a) = expr_of (snd b)) args args' ->
+  expr_of (XCall name dot args close) = expr_of (XCall name dot args' close').
+Proof. intros H. rewrite !expr_of_call, (exprs_of_ext _ _ H). reflexivity. Qed.
+
+(* (.f x ...) = (f . x ...) = (f # x ...) *)
+Theorem dot_sugar_same_expr name args close s h close' :
+  expr_of (XCall name true args close) =
+  expr_of (XCall name false ((s, XExtract O (PRoot h)) :: args) close').
+Proof.
+  rewrite !expr_of_call. cbn [exprs_of expr_of path_of]. destruct (exprs_of args); reflexivity.
+Qed.
+
+(* at the level of the reader: two spellings of the same tree are read as the same expression,
+   wherever they stand *)
+Theorem same_tree_same_reading x y e fuel fuel' (w w' tl tl' : list byte) r r' :
+  xwf x -> xwf y -> expr_of x = Some e -> expr_of y = expr_of x ->
+  xfollow x tl -> xfollow y tl' -> ws_ok w -> ws_ok w' -> rd_ok r -> rd_ok r' ->
+  view r = w ++ show x ++ tl -> view r' = w' ++ show y ++ tl' ->
+  (2 * length (view r) < fuel)%nat -> (2 * length (view r') < fuel')%nat ->
+  fst (read_getter fuel r) = Some e /\ fst (read_getter fuel' r') = Some e.
+Proof.
+  intros Hx Hy Ex Ey Fx Fy Hw Hw' Hok Hok' Hv Hv' Hf Hf'. rewrite Ex in Ey.
+  destruct (read_getter_show fuel x e w tl r Hx Ex Fx Hw Hok Hv Hf) as (r1 & -> & _).
+  destruct (read_getter_show fuel' y e w' tl' r' Hy Ey Fy Hw' Hok' Hv' Hf') as (r2 & -> & _).
+  split; reflexivity.
+Qed.
+
+Lemma parse_whole_show0 x e : xwf x -> expr_of x = Some e -> parse_whole (show x) = Some e.
+Proof.
+  intros Hx Ex. pose proof (parse_whole_show x e [] [] Hx Ex (Forall_nil _) (Forall_nil _)) as H.
+  cbn [app] in H. rewrite app_nil_r in H. exact H.
+Qed.
+
+(* the same, through the option parsers: as a filter / splitter / grouper, as a sort key with any
+   direction suffix, as a macro body *)
+Theorem spelling_invisible x y e : xwf x -> xwf y -> expr_of x = Some e -> expr_of y = expr_of x ->
+  parse_whole (show x) = Some e /\ parse_whole (show y) = Some e /\
+  (forall tl dir, dir_suffix tl dir ->
+     parse_sorter (show x ++ tl) = Some (e, dir) /\ parse_sorter (show y ++ tl) = Some (e, dir)) /\
+  (forall kb k, Forall (fun b => (b =? 61) = false) kb -> utf8_decode kb = Some k ->
+     parse_preset (kb ++ 61 :: show x) = parse_preset (kb ++ 61 :: show y)).
+Proof.
+  intros Hx Hy Ex Ey. rewrite Ex in Ey. split; [|split; [|split]].
+  - apply parse_whole_show0; assumption.
+  - apply parse_whole_show0; assumption.
+  - intros tl dir Hd. split.
+    + apply (parse_sorter_show x e [] tl dir Hx Ex (Forall_nil _) Hd).
+    + apply (parse_sorter_show y e [] tl dir Hy Ey (Forall_nil _) Hd).
+  - intros kb k Hkb Hk.
+    pose proof (parse_preset_show x e kb [] [] k Hx Ex (Forall_nil _) (Forall_nil _) Hkb Hk) as P1.
+    pose proof (parse_preset_show y e kb [] [] k Hy Ey (Forall_nil _) (Forall_nil _) Hkb Hk) as P2.
+    cbn [app] in P1, P2. rewrite app_nil_r in P1, P2. exact (eq_trans P1 (eq_sym P2)).
+Qed.
+
+(* ================= P5: examples (non-vacuity) ================= *)
+Definition t_size : expr := ECall F_size [EExtract O None].
+Definition root : sexpr := XExtract O (PRoot false).
+
+(* (.size) | (len .) | (count , . ) : three spelling trees, their texts, one denotation *)
+Definition ex_size1 : sexpr := XCall [115; 105; 122; 101] true [] [].
+Definition ex_size2 : sexpr := XCall [108; 101; 110] false [([32], root)] [].
+Definition ex_size3 : sexpr := XCall [99; 111; 117; 110; 116] false [([32; 44; 32], root)] [32].
+
+Example ex_size_texts :
+  show ex_size1 = [40; 46; 115; 105; 122; 101; 41] /\
+  show ex_size2 = [40; 108; 101; 110; 32; 46; 41] /\
+  show ex_size3 = [40; 99; 111; 117; 110; 116; 32; 44; 32; 46; 32; 41].
+Proof. repeat split; reflexivity. Qed.
+
+Example ex_size_exprs :
+  expr_of ex_size1 = Some t_size /\ expr_of ex_size2 = Some t_size /\ expr_of ex_size3 = Some t_size.
+Proof. vm_compute. repeat split; reflexivity. Qed.
+
+Ltac plain_wf := cbn; repeat (split || constructor || discriminate).
+
+Example ex_size_wf : xwf ex_size1 /\ xwf ex_size2 /\ xwf ex_size3.
+Proof. split; [|split]; apply xwf_plain_xwf; plain_wf. Qed.
+
+(* the theorem applied: no computation of the reader involved *)
+Example ex_size_by_theorem :
+  parse_whole (show ex_size1) = Some t_size /\ parse_whole (show ex_size2) = Some t_size /\
+  parse_whole (show ex_size3) = Some t_size.
+Proof.
+  destruct ex_size_wf as (W1 & W2 & W3). destruct ex_size_exprs as (E1 & E2 & E3).
+  repeat split; apply parse_whole_show0; assumption.
+Qed.
+
+(* the reader run on the texts *)
+Example ex_run_size1 : parse_whole [40; 46; 115; 105; 122; 101; 41] = Some t_size.
+Proof. vm_compute. reflexivity. Qed.
+Example ex_run_size2 : parse_whole [40; 108; 101; 110; 32; 46; 41] = Some t_size.
+Proof. vm_compute. reflexivity. Qed.
+Example ex_run_size3 : parse_whole [40; 99; 111; 117; 110; 116; 32; 44; 32; 46; 32; 41] = Some t_size.
+Proof. vm_compute. reflexivity. Qed.
+(* no blank may stand between '(' and the name: "( count , . )" names the function "" *)
+Example ex_run_blank_after_paren :
+  parse_whole [40; 32; 99; 111; 117; 110; 116; 32; 44; 32; 46; 32; 41] = None.
+Proof. vm_compute. reflexivity. Qed.
+
+(* (+ :v,:v) : the comma ends the variable name *)
+Example ex_run_add : parse_whole [40; 43; 32; 58; 118; 44; 58; 118; 41] = Some (ECall F_add [EVar [118]; EVar [118]]).
+Proof. vm_compute. reflexivity. Qed.
+(* (plus :v :v) *)
+Example ex_run_plus :
+  parse_whole [40; 112; 108; 117; 115; 32; 58; 118; 32; 58; 118; 41] = Some (ECall F_add [EVar [118]; EVar [118]]).
+Proof. vm_compute. reflexivity. Qed.
+
+(* (get . "a") | ([] .,"a") | (.get "a") ; but in (.get"a") the name runs on to the parenthesis *)
+Definition t_get_a : expr := ECall F_get [EExtract O None; EConst (JStr [97])].
+Example ex_run_get1 : parse_whole [40; 103; 101; 116; 32; 46; 32; 34; 97; 34; 41] = Some t_get_a.
+Proof. vm_compute. reflexivity. Qed.
+Example ex_run_get2 : parse_whole [40; 91; 93; 32; 46; 44; 34; 97; 34; 41] = Some t_get_a.
+Proof. vm_compute. reflexivity. Qed.
+Example ex_run_get3 : parse_whole [40; 46; 103; 101; 116; 32; 34; 97; 34; 41] = Some t_get_a.
+Proof. vm_compute. reflexivity. Qed.
+Example ex_run_get4 : parse_whole [40; 46; 103; 101; 116; 34; 97; 34; 41] = None.
+Proof. vm_compute. reflexivity. Qed.
+
+(* every form at once:  (? (< ^.a#01 100) @m / sel / )  and  (if(< ^.a#1,100)@m,/sel/) *)
+Definition str_a : str := [97].
+Definition ex_big (alias_if : list byte) (idx num : list byte) (s1 s2 s3 s4 s5 : pad) (pl pr : str)
+                  (close : pad) : sexpr :=
+  XCall alias_if false
+    [ (s1, XCall [60] false
+             [ (s2, XExtract 1 (PPath [PKey str_a; PIdx idx]));
+               (s3, XConst (SNum {| sn_neg := false; sn_int := num; sn_frac := None; sn_exp := None |})) ] []);
+      (s4, XMacro [109]);
+      (s5, XSelected pl [115; 101; 108] pr) ] close.
+Definition ex_big1 := ex_big [63] [48; 49] [49; 48; 48] [32] [32] [32] [32] [32] [32] [32] [32].
+Definition ex_big2 := ex_big [105; 102] [49] [49; 48; 48] [] [32] [44] [] [44] [] [] [].
+(* without a separator the macro name would run on: (if(< ^.a#1,100)@m/sel/) *)
+Definition ex_big3 := ex_big [105; 102] [49] [49; 48; 48] [] [32] [44] [] [] [] [] [].
+
+Example ex_big_texts :
+  show ex_big1 = [40; 63; 32; 40; 60; 32; 94; 46; 97; 35; 48; 49; 32; 49; 48; 48; 41; 32; 64; 109; 32;
+                  47; 32; 115; 101; 108; 32; 47; 32; 41] /\
+  show ex_big2 = [40; 105; 102; 40; 60; 32; 94; 46; 97; 35; 49; 44; 49; 48; 48; 41; 64; 109; 44;
+                  47; 115; 101; 108; 47; 41].
+Proof. split; reflexivity. Qed.
+
+Ltac wf_compute := vm_compute; repeat (split || constructor || discriminate || (intro; discriminate)).
+
+Example ex_big_wf : xwf ex_big1 /\ xwf ex_big2.
+Proof. split; wf_compute. Qed.
+
+Example ex_big_same : expr_of ex_big1 = expr_of ex_big2 /\ expr_of ex_big1 <> None.
+Proof. vm_compute. split; [reflexivity|discriminate]. Qed.
+
+Example ex_big_run :
+  parse_whole (show ex_big1) = parse_whole (show ex_big2) /\ parse_whole (show ex_big1) = expr_of ex_big1.
+Proof. vm_compute. split; reflexivity. Qed.
+
+(* the follow condition of xwf is not idle: the same tree, not admissible, is read differently *)
+Example ex_big3_not_read : expr_of ex_big3 = expr_of ex_big1 /\ parse_whole (show ex_big3) = None.
+Proof. vm_compute. split; reflexivity. Qed.
+
+(* --sort-by "(.len)=DeSc" *)
+Example ex_run_sorter :
+  parse_sorter [40; 46; 108; 101; 110; 41; 61; 68; 101; 83; 99] = Some (t_size, Desc).
+Proof. vm_compute. reflexivity. Qed.
+
+(* &Index_In-file *)
+Example ex_run_ictx :
+  parse_whole [38; 73; 110; 100; 101; 120; 95; 73; 110; 45; 102; 105; 108; 101] = Some (EIctx IIndexInFile).
+Proof. vm_compute. reflexivity. Qed.
+
+Print Assumptions read_getter_show.
+Print Assumptions parse_args_show.
+Print Assumptions xwf_plain_xwf.
+Print Assumptions parse_whole_show.
+Print Assumptions parse_selection_show.
+Print Assumptions parse_selection_show_named.
+Print Assumptions parse_sorter_show.
+Print Assumptions parse_preset_show.
+Print Assumptions alias_same_expr.
+Print Assumptions separators_same_expr.
+Print Assumptions dot_sugar_same_expr.
+Print Assumptions same_tree_same_reading.
+Print Assumptions spelling_invisible.
+Print Assumptions fn_names_nodup.
+Print Assumptions alias_resolves.
+Print Assumptions alias_same_arity.
+Print Assumptions canonical_known.
+Print Assumptions fn_count_ok.
